@@ -33,6 +33,7 @@ fn prog(name: &str, setup: Vec<TOp>, threads: Vec<Vec<TOp>>) -> Arc<Prog> {
         fs_switch: false,
         recover_at_removals: false,
         recover_at_meta: false,
+        recover_at_all_writes: false,
         fault: None,
         fault_thread: None,
         final_directory: false,
@@ -123,6 +124,7 @@ pub fn c06_programs() -> Vec<Arc<Prog>> {
             fs_switch: false,
             recover_at_removals: false,
             recover_at_meta: false,
+            recover_at_all_writes: false,
             fault: None,
             fault_thread: None,
             final_directory: false,
@@ -364,6 +366,7 @@ pub fn c03_programs() -> Vec<Arc<Prog>> {
             fs_switch,
             recover_at_removals: false,
             recover_at_meta: false,
+            recover_at_all_writes: false,
             fault: None,
             fault_thread: None,
             final_directory: false,
@@ -403,6 +406,7 @@ pub fn levels_programs() -> Vec<Arc<Prog>> {
             fs_switch: false,
             recover_at_removals: false,
             recover_at_meta: false,
+            recover_at_all_writes: false,
             fault: None,
             fault_thread: None,
             final_directory: true,
@@ -429,6 +433,7 @@ pub fn c09_programs() -> Vec<Arc<Prog>> {
             fs_switch: false,
             recover_at_removals: false,
             recover_at_meta: false,
+            recover_at_all_writes: false,
             fault: None,
             fault_thread: None,
             final_directory: false,
@@ -479,6 +484,7 @@ pub fn c11_removal_programs() -> Vec<Arc<Prog>> {
             fs_switch: false,
             recover_at_removals: true,
             recover_at_meta: false,
+            recover_at_all_writes: false,
             fault: None,
             fault_thread: None,
             final_directory: false,
@@ -515,6 +521,7 @@ pub fn c11_fault_programs() -> Vec<Arc<Prog>> {
             fs_switch: false,
             recover_at_removals: false,
             recover_at_meta: false,
+            recover_at_all_writes: false,
             fault: Some(fault),
             fault_thread: Some(0),
             final_directory: true,
@@ -563,6 +570,7 @@ pub fn c08_concurrent_programs() -> Vec<Arc<Prog>> {
             fs_switch: false,
             recover_at_removals: false,
             recover_at_meta: false,
+            recover_at_all_writes: false,
             fault: Some(fault),
             fault_thread,
             final_directory: false,
@@ -617,6 +625,40 @@ pub fn c08_concurrent_programs() -> Vec<Arc<Prog>> {
     v
 }
 
+/// C02 under concurrency, several writers: group commits, queued writers and memtable rotation,
+/// with a crash image recovered after *every* write to any file, rename and removal. Per key the
+/// recovered value must come from a write that had started and that no write acknowledged before
+/// the crash definitely followed; a batch is recovered completely or not at all.
+pub fn c02_multiwriter_programs() -> Vec<Arc<Prog>> {
+    let p = |name: &str, cfg: Cfg, setup: Vec<TOp>, threads: Vec<Vec<TOp>>| {
+        Arc::new(Prog {
+            name: name.to_string(),
+            cfg,
+            keys: kab(),
+            setup,
+            threads,
+            strict_unlink: true,
+            fs_switch: false,
+            recover_at_removals: true,
+            recover_at_meta: true,
+            recover_at_all_writes: true,
+            fault: None,
+            fault_thread: None,
+            final_directory: false,
+            fault_budget: None,
+            judge_under_fault: false,
+        })
+    };
+    let big = Cfg::new(4 << 20, 300, 16, true);
+    vec![
+        p("crash: w||w||w", big, vec![Put(0, 1, 8)], vec![vec![Put(0, 2, 8)], vec![Put(1, 3, 8)], vec![Put(0, 4, 8)]]),
+        p("crash: w+w||w+w", big, vec![], vec![vec![Put(0, 1, 8), Put(1, 2, 8)], vec![Put(1, 3, 8), Put(0, 4, 8)]]),
+        p("crash: batch||w||del", big, vec![Put(0, 1, 8)], vec![vec![Batch(vec![(0, Some(2)), (1, Some(2))])], vec![Put(1, 3, 8)], vec![Del(0)]]),
+        p("crash: rotating w+w||w+w", rot_cfg(), vec![Put(0, 1, 8)], vec![vec![Put(1, 2, 8), Put(0, 3, 8)], vec![Put(1, 4, 8), Put(0, 5, 8)]]),
+        p("crash: rotating w+w||batch||flush", rot_cfg(), vec![Put(0, 1, 8)], vec![vec![Put(1, 2, 8), Put(0, 3, 8)], vec![Batch(vec![(0, Some(4)), (1, Some(4))])], vec![Flush]]),
+    ]
+}
+
 /// C09 with an I/O fault: writers queued behind a leader that is waiting for room when the
 /// background flush fails must all be released (with an error), never left waiting.
 pub fn c09_fault_programs() -> Vec<Arc<Prog>> {
@@ -632,6 +674,7 @@ pub fn c09_fault_programs() -> Vec<Arc<Prog>> {
             fs_switch: false,
             recover_at_removals: false,
             recover_at_meta: false,
+            recover_at_all_writes: false,
             fault: Some(fault),
             fault_thread: None,
             final_directory: false,
